@@ -10,3 +10,19 @@ func VerifPlugin(ssn *Session, name string) Plugin {
 	}
 	return ssn.plugins[name]
 }
+
+// VerifOp is a read-only view of one recorded statement operation.
+type VerifOp struct {
+	Kind  string
+	Task  string
+	Valid bool
+}
+
+// VerifOperations lists the operations a statement holds, with the statement's own validity verdict.
+func VerifOperations(s *Statement) []VerifOp {
+	out := make([]VerifOp, 0, len(s.operations))
+	for i, op := range s.operations {
+		out = append(out, VerifOp{Kind: op.Name(), Task: string(op.TaskInfo().UID), Valid: s.operationValid(i)})
+	}
+	return out
+}
